@@ -49,6 +49,11 @@ CHECKS = {
    text='Bounded exhaustive exploration of LAT=1 decks: ALL fill arrays over {0, own universe, u2, u3} for 2x2, 3x2 (with a fill rotation), flipped and swapped pair listings and 1-D cells, plus a deviation-bounded family over dimensions, skew cells, -rpp cells, ranges (negative, degenerate, trailing trivial), FILL=n with --lattice, fill transformations in three spellings, lattice TRCL and containers larger than / cutting the range; each deck is compared with the reference lattice semantics (owner filler cell, outermost container, composition) at one witness per cell of the joint plane arrangement.',
    note='Trusted: MCNP lattice conventions as stated in the property; synthetic element ids in provenance comments are not compared, index assignment is observed through asymmetric arrays.',
    tech='explicit enumeration (complete array products + deviation-bounded shapes) against a reference lattice model; complete plane-arrangement witnesses'),
+
+ 'C07': dict(cat='model_checking', ref='4/C07',
+   text='Bounded exhaustive exploration of LAT=2 decks: regular and irregular (stretched, sheared) hexagons in three orientations, prism axis z/x/oblique, six or eight planes, every admissible listing (start side, chirality, order of the last two side planes, either normal orientation per plane, axial pair order), ranges and asymmetric fill arrays, all choices deviation-bounded and iterated; compared with a reference whose base vectors come from half-plane clipping of the hexagon (a1 across the 1st listed plane, a2 across the 3rd, a3 across the 7th) at complete plane-arrangement witnesses.',
+   note='Trusted: MCNP hexagonal index convention as stated in the property; only listings with the 3rd plane adjacent to the 1st are generated. Index assignment is observed through asymmetric arrays (filler identity, composition), not through synthetic element ids.',
+   tech='explicit choice-tree enumeration (deviation-bounded) against a clipped-polygon reference lattice model; complete plane-arrangement witnesses'),
 }
 NA_REASON = 'check not built yet in this build round (planned, see DESIGN.md section 4); no claim is made'
 
